@@ -283,6 +283,10 @@ func checkC10(t TB, st *Stats, s EncSpec) (bool, verdict) {
 		if isNil == (err == nil) {
 			failf(t, P, K, s, "returned barcode nil=%v together with error %v: not exactly one of barcode and error", isNil, err)
 		}
+		if err != nil && bc != nil {
+			// a nil pointer wrapped in a non-nil interface: callers testing `bc != nil` see a barcode, using it panics
+			failf(t, P, K, s, "an error (%v) was returned together with a barcode interface that is != nil (it wraps a nil %T)", err, bc)
+		}
 		accepted = err == nil
 	}
 	switch {
@@ -496,6 +500,36 @@ func TestC10Boundaries(t *testing.T) {
 	}
 	for _, l := range []int{9, 10, 100, 128, 255} {
 		add(EncSpec{Fam: "pdf417", Content: BStr("level"), A: l})
+	}
+	// far beyond capacity (1.03x .. 4x) for every 2D symbology and every level: must fail cleanly
+	for l := 0; l <= 8; l++ {
+		for _, n := range []int{1850, 1900, 2000, 2400, 3600, 6000} {
+			add(EncSpec{Fam: "pdf417", Content: BStr(strings.Repeat("A", n)), A: l})
+			add(EncSpec{Fam: "pdf417", Content: BStr(strings.Repeat("7", n*3/2)), A: l})
+			add(EncSpec{Fam: "pdf417", Content: BStr(strings.Repeat("\xc8", n*2/3)), A: l})
+			add(EncSpec{Fam: "pdf417", Content: BStr(strings.Repeat("a;B\x01 ", n/5)), A: l})
+		}
+	}
+	for _, n := range []int{1600, 2000, 3200, 6500} {
+		add(EncSpec{Fam: "datamatrix", Content: BStr(strings.Repeat("Z", n))})
+		add(EncSpec{Fam: "datamatrix", Content: BStr(strings.Repeat("\x99", n/2))})
+		add(EncSpec{Fam: "datamatrix", Content: BStr(strings.Repeat("42", n))})
+	}
+	for l := 0; l < 4; l++ {
+		for _, n := range []int{7100, 7500, 9000, 15000, 30000} {
+			for mode := 0; mode < 4; mode++ {
+				add(EncSpec{Fam: "qr", Content: BStr(strings.Repeat("8", n)), A: l, B: mode})
+				add(EncSpec{Fam: "qr", Content: BStr(strings.Repeat("K", n*2/3)), A: l, B: mode})
+				add(EncSpec{Fam: "qr", Content: BStr(strings.Repeat("\x81", n/2)), A: l, B: mode})
+			}
+		}
+	}
+	for _, n := range []int{2100, 2600, 4000, 9000} {
+		for _, pct := range []int{0, 33, 100} {
+			add(EncSpec{Fam: "aztec", Content: BStr(strings.Repeat("\x99", n)), A: pct})
+			add(EncSpec{Fam: "aztec", Content: BStr(strings.Repeat("Q", n*2)), A: pct})
+			add(EncSpec{Fam: "aztec", Content: BStr(strings.Repeat("7", n*2)), A: pct, B: 32})
+		}
 	}
 	// Aztec: layer range, homogeneous payloads around every size's capacity, huge percentages
 	for l := -40; l <= 40; l++ {
